@@ -52,6 +52,18 @@ def cases(seed, tier):
         case["script"].append({"do": "call", "plan": body, "main": True, "inject": []})
         yield case
         return
+    if rng.random() < 0.12:
+        # removed and installed again while the signal still sits in the suspend condition: the re-installed suspender
+        # is shown the same value again and is tripped from the start
+        case["script"] += [{"do": "put", "signal": "sigS", "value": 1}, {"do": "remove_suspender", "sus": "s0"}]
+        if rng.random() < 0.5:
+            case["script"].append({"do": "call", "plan": [msg(S, "null")], "tag": "between"})
+        case["script"].append({"do": "install_suspender", "sus": "s0"})
+        case["script"].append({"do": "put_later", "signal": "sigS", "value": 0, "delay": rng.choice([0.3, 1.0, 3.0])})
+        body = [msg(S, "open_run"), msg(S, "checkpoint"), msg(S, "sleep", None, 0.5), msg(S, "checkpoint"), msg(S, "close_run")]
+        case["script"].append({"do": "call", "plan": body, "main": True, "inject": []})
+        yield case
+        return
     ncalls = rng.choice([1, 2])
     removed = False
     for ci in range(ncalls):
